@@ -121,6 +121,106 @@ theorem C02_validate_truthful (o : Opts) (rt : Nat) (b : Block) (fault : Bool) (
               · exact Or.inl (by rw [hfinal.2]; exact hb)
               · exact Or.inr hv
 
+
+/-! ### the payload digest -/
+
+theorem checkDigest_has_other (o : Opts) (field : Bytes) (tag : Tag) (d : Digest) (data : Bytes) (st st' : St)
+    (h : checkDigest H o field tag d data st = (.ok (), st')) :
+    ∀ k, canon k ≠ canon field → st'.hdr.has k = st.hdr.has k := by
+  intro k hk
+  unfold checkDigest at h
+  simp only [M.bind_def, M.hdr_def] at h
+  by_cases he : d.hash.isEmpty = true
+  · simp only [he, ↓reduceIte, M.setHdr_def, Prod.mk.injEq, Except.ok.injEq, true_and] at h
+    subst h
+    simp only
+    split
+    · exact has_set_other _ _ _ _ hk
+    · rfl
+  · simp only [he, Bool.false_eq_true, ↓reduceIte, M.bind_def, M.hdr_def, M.setHdr_def] at h
+    cases hc : condSite (o.spec != Pol.ignore && !d.valid H data) o.spec tag st with
+    | mk r1 s1 =>
+      rw [hc] at h
+      cases r1 with
+      | error e => simp at h
+      | ok u1 =>
+        have k1 : s1.hdr = st.hdr := keep_of_eq (KeepHdr.condSite _ _ _) hc
+        simp only [Prod.mk.injEq, Except.ok.injEq, true_and] at h
+        subst h
+        simp only
+        split
+        · rw [has_set_other _ _ _ _ hk, k1]
+        · rw [k1]
+
+/-- **after ValidateDigest the header tells the truth about the payload digest**: when the block kind has a payload
+    (HTTP blocks: the bytes after the protocol header; resource records: the block) and ValidateDigest looks at it (not a
+    revisit, no WARC-Segment-Number), the WARC-Payload-Digest field is the rendering of the digest of exactly the payload
+    bytes, or it is the declared value and that value decodes to the digest of the payload bytes -/
+theorem C02_validate_payload (o : Opts) (rt : Nat) (b : Block) (fault : Bool) (st st' : St)
+    (hspec : o.spec ≠ .ignore) (hfix : o.fixDigest = true) (hadd : o.addMissingDigest = true)
+    (pd : Digest) (hpd : b.payloadDigest = some pd) (hnr : (rt == RT_Revisit) = false)
+    (hseg : st.hdr.has (bs "WARC-Segment-Number") = false)
+    (h : validateDigest H o rt b fault st = (.ok (), st')) :
+    st'.hdr.get (bs "WARC-Payload-Digest") = pd.format H b.payload ∨ pd.valid H b.payload = true := by
+  unfold validateDigest at h
+  simp only [M.bind_def, M.hdr_def, M.setHdr_def] at h
+  cases h1 : condFail (fault && (b.kind == .generic || b.kind == .httpReq || b.kind == .httpResp)) .reader st with
+  | mk r1 s1 =>
+    rw [h1] at h
+    cases r1 with
+    | error e => simp at h
+    | ok u1 =>
+      have e1 : s1 = st := by
+        unfold condFail at h1
+        split at h1
+        · simp at h1
+        · simp only [M.pure_def, Prod.mk.injEq] at h1; exact h1.2.symm
+      subst e1
+      simp only at h
+      cases h3 : condSite (lengthBad o s1.hdr b) o.spec .length s1 with
+      | mk r3 s3 =>
+        rw [h3] at h
+        cases r3 with
+        | error e => simp at h
+        | ok u3 =>
+          simp only at h
+          have k3 : s3.hdr = s1.hdr := keep_of_eq (KeepHdr.condSite _ _ _) h3
+          generalize hs5 : ({ hdr := if (lengthBad o s1.hdr b && o.fixContentLength) = true then s3.hdr.set (bs "Content-Length") (natToDec b.raw.length) else s3.hdr, fnd := s3.fnd } : St) = s5 at h
+          have hseg5 : s5.hdr.has (bs "WARC-Segment-Number") = false := by
+            rw [← hs5]; simp only
+            split
+            · rw [has_set_other _ _ _ _ (by decide), k3]; exact hseg
+            · rw [k3]; exact hseg
+          cases h6 : checkDigest H o (bs "WARC-Block-Digest") .digestBlock b.blockDigest b.raw s5 with
+          | mk r6 s6 =>
+            rw [h6] at h
+            cases r6 with
+            | error e => simp at h
+            | ok u6 =>
+              simp only at h
+              have hseg6 : s6.hdr.has (bs "WARC-Segment-Number") = false := by
+                rw [checkDigest_has_other H o _ _ _ _ s5 s6 h6 _ (by decide)]; exact hseg5
+              simp only [hnr, hseg6, Bool.or_self, Bool.false_eq_true, ↓reduceIte, hpd] at h
+              exact (checkDigest_post H o (bs "WARC-Payload-Digest") .digestPayload pd b.payload s6 st' hspec hfix hadd h).1.elim
+                Or.inl (fun hh => Or.inr hh.2)
+
+/-- for an HTTP block the payload is exactly the bytes after the protocol header, whatever the head contains -/
+theorem C02_http_payload (o : Opts) (Ω : Oracles) (c : Bytes) (bd pd : Digest) (s s' : St) (b : Block)
+    (hfix : o.fixSyntaxErrors = false) (h : newHttpBlock o Ω c bd pd s = (.ok b, s')) :
+    b.payload = (headerBytes c).2.1 ∧ b.payloadDigest = some pd ∧ b.raw = c := by
+  unfold newHttpBlock at h
+  simp only [hfix, Bool.and_false, Bool.false_and, Bool.false_eq_true, ↓reduceIte] at h
+  obtain ⟨_, t1, _, h⟩ := bind_ok _ _ _ _ _ h
+  obtain ⟨_, t2, _, h⟩ := bind_ok _ _ _ _ _ h
+  obtain ⟨_, t3, _, h⟩ := bind_ok _ _ _ _ _ h
+  obtain ⟨_, t4, _, h⟩ := bind_ok _ _ _ _ _ h
+  obtain ⟨_, t5, _, h⟩ := bind_ok _ _ _ _ _ h
+  simp only [M.pure_def, Prod.mk.injEq, Except.ok.injEq] at h
+  rw [← h.1]
+  refine ⟨?_, rfl, headerBytes_append c⟩
+  unfold Block.payload
+  simp
+
 /-! ### the builder: a Content-Length field, once present, stays present until ValidateDigest -/
 
 structure KeepsCL {α} (m : M α) : Prop where
